@@ -268,6 +268,13 @@ BetUnpack(blocks, v) ==
   LET w == BetWidths(blocks) IN
   [pos |-> v % 2^w.pos, fsize |-> (v \div 2^w.pos) % 2^w.fsize, csize |-> (v \div 2^(w.pos + w.fsize)) % 2^w.csize,
    flag |-> (v \div 2^(w.pos + w.fsize + w.csize)) % 2^w.flag]
+\* width of one entry, and an upper bound of it from the largest member and the summed member lengths (positions and
+\* stored sizes are below total + tables, file sizes below the largest member)
+BetEntryWidth(blocks) == LET w == BetWidths(blocks) IN w.pos + w.fsize + w.csize + w.flag
+BetEntryWidthBound(maxlen, total) == 2 * (BitsNeeded(maxlen) + 1) + BitsNeeded(total) + 1 + 3
+\* named deviation (F-C01-g): create_bet_table assembled the entry in a u64 (`x << bit_index`), which overflows -- a panic
+\* in debug builds, dropped bits in release builds -- as soon as the entry is wider than 64 bits
+DevBetEntryOver64(blocks) == BetEntryWidth(blocks) > 64
 BetEntryExact(blocks, j) ==
   BetUnpack(blocks, BetPack(blocks, j)) =
     [pos |-> blocks[j].pos, fsize |-> blocks[j].fsize, csize |-> blocks[j].csize, flag |-> FlagIndex(blocks, blocks[j].flags)]
@@ -410,6 +417,10 @@ Explained(b, out) ==
 ReadBack == vlast.kind = "file" => (vlast.out = "exact" \/ Explained(vblocks[vlast.file], vlast.out))
 ReadBackNeverNotFound == vlast.kind = "file" => vlast.out # "notfound"
 AbsentNotFound == vlast.kind = "absent" => vlast.out = "notfound"
+\* an accepted build never holds two names with one lookup key (Insert refuses the second): what read_file returns for
+\* a name is the file added under that name
+DistinctKeys == vph = "built" => \A i \in 1..Len(vfiles) : \A j \in 1..Len(vfiles) :
+                   (i # j) => (NameHash(vfiles[i].name).a # NameHash(vfiles[j].name).a \/ NameHash(vfiles[i].name).b # NameHash(vfiles[j].name).b)
 \* every BET entry gives the reader back the block's position, sizes and flag word (field widths are sufficient, fields
 \* do not spill into their neighbours)
 BetRoundTrip == (UseHetBet /\ vph = "built" /\ vlast = NoObs /\ vlk = Idle) => \A j \in 1..Len(vblocks) : BetEntryExact(vblocks, j)
